@@ -130,6 +130,8 @@ def __getattr__(name):
             if _VERIF:
                 _verif.emit("attr_locked", module=module_name)
             module = importlib.import_module(f"sqlglot.dialects.{module_name}")
+            if _VERIF:
+                _verif.emit("attr_unlocking", module=module_name)
         if _VERIF:
             _verif.emit("attr_done", module=module_name)
         return getattr(module, name)
